@@ -445,16 +445,22 @@ class MinFlowDecompCycles(walkmodel.AbstractWalkModelDiGraph):
         if self._lowerbound_k != None:
             return self._lowerbound_k
         
-        stDiGraph = stdigraph.stDiGraph(self.G)
+        # (a bound whose computation did not finish is no bound: without the reset a failed call left the partial value
+        # behind and the next solve() of the same model skipped the step that had failed)
+        try:
+            stDiGraph = stdigraph.stDiGraph(self.G)
 
-        # Checking if we have been given some lowerbound to start with
-        self._lowerbound_k = self.optimization_options.get("lowerbound_k", 1)
+            # Checking if we have been given some lowerbound to start with
+            self._lowerbound_k = self.optimization_options.get("lowerbound_k", 1)
 
-        self._lowerbound_k = max(self._lowerbound_k, stDiGraph.get_width(edges_to_ignore=stDiGraph.source_sink_edges.union(self.edges_to_ignore)))
+            self._lowerbound_k = max(self._lowerbound_k, stDiGraph.get_width(edges_to_ignore=stDiGraph.source_sink_edges.union(self.edges_to_ignore)))
 
-        if self.optimization_options.get("use_min_gen_set_lowerbound", MinFlowDecompCycles.use_min_gen_set_lowerbound):  
-            mingenset_lowerbound = self._get_lowerbound_with_min_gen_set()
-            if mingenset_lowerbound is not None:
-                self._lowerbound_k = max(self._lowerbound_k, mingenset_lowerbound)
+            if self.optimization_options.get("use_min_gen_set_lowerbound", MinFlowDecompCycles.use_min_gen_set_lowerbound):  
+                mingenset_lowerbound = self._get_lowerbound_with_min_gen_set()
+                if mingenset_lowerbound is not None:
+                    self._lowerbound_k = max(self._lowerbound_k, mingenset_lowerbound)
 
-        return self._lowerbound_k
+            return self._lowerbound_k
+        except Exception:
+            self._lowerbound_k = None
+            raise
